@@ -104,6 +104,32 @@ func runMarker(c *vlib.Ctx, script []string, verbose bool) {
 			continue
 		}
 		m2.Close()
+		// Second level: the process continues on the crash image. A further Move must win over
+		// whatever (possibly two) marker files the crash left behind, also after RemoveObsolete.
+		{
+			fs3 := cloneFS(im.FS)
+			m3, _, err := atomicfs.LocateMarker(fs3, "d", "mk")
+			if err == nil {
+				err = m3.Move("9")
+			}
+			var after1, after2 string
+			if err == nil {
+				after1, err = atomicfs.ReadMarker(fs3, "d", "mk")
+			}
+			if err == nil {
+				err = m3.RemoveObsolete()
+			}
+			if err == nil {
+				after2, err = atomicfs.ReadMarker(fs3, "d", "mk")
+			}
+			if err == nil {
+				err = m3.Close()
+			}
+			if err != nil || after1 != "9" || after2 != "9" {
+				c.Violation("stale-marker-wins-after-crash", fmt.Sprintf("%s: continuing on the image with LocateMarker; Move(9): ReadMarker=%q, after RemoveObsolete %q, err=%v", desc, after1, after2, err), markerCase{Script: script, Image: desc})
+				continue
+			}
+		}
 		for _, pt := range im.Points {
 			// acknowledged ops 1..maxD have returned; op hi may be in flight: the value is the one
 			// after maxD, or after any later started op
@@ -237,7 +263,47 @@ func runRatchet(c *vlib.Ctx, from, to int, level2 bool, verbose bool) {
 		got := int(y.D.FormatMajorVersion())
 		st, rerr := observe(y.D)
 		cerr := y.D.CheckLevels(nil)
+		// the interrupted upgrade is resumed on the recovered DB: it must reach the target with
+		// the data intact, and that must survive a reopen
+		var reErr error
+		reSt, reVer := "", 0
+		if rerr == nil && cerr == nil {
+			if got < to {
+				reErr = y.D.RatchetFormatMajorVersion(pebble.FormatMajorVersion(to))
+			}
+			if reErr == nil {
+				reSt, reErr = observe(y.D)
+			}
+		}
 		y.D.Close()
+		if rerr == nil && cerr == nil && reErr == nil {
+			z, err := hx.Open(fsImg, "db", hx.Config{Name: "reopen2", FMV: from})
+			if err != nil {
+				reErr = err
+			} else {
+				reVer = int(z.D.FormatMajorVersion())
+				st2, err := observe(z.D)
+				if err != nil {
+					reErr = err
+				} else if st2 != reSt {
+					reErr = fmt.Errorf("state after resumed ratchet {%s}, after reopen {%s}", reSt, st2)
+				}
+				if err := z.D.CheckLevels(nil); err != nil && reErr == nil {
+					reErr = err
+				}
+				z.D.Close()
+			}
+		}
+		if rerr == nil && cerr == nil {
+			if reErr != nil {
+				c.Violation("resumed-ratchet-fails", fmt.Sprintf("%s: resuming the ratchet to %d on the recovered DB: %v", desc, to, reErr), ratchetCase{From: from, To: to, Image: desc})
+				return
+			}
+			if reSt != want || reVer != to {
+				c.Violation("resumed-ratchet-wrong", fmt.Sprintf("%s: after resuming the ratchet and reopening: version %d (want %d), state {%s} (want {%s})", desc, reVer, to, reSt, want), ratchetCase{From: from, To: to, Image: desc})
+				return
+			}
+		}
 		if rerr != nil || cerr != nil {
 			c.Violation("read-after-recovery", fmt.Sprintf("%s: %v %v", desc, rerr, cerr), ratchetCase{From: from, To: to, Image: desc})
 			return
